@@ -38,9 +38,7 @@ func checkC11(c *Ctx) {
 }
 
 func cleanupPolicy() pw.Policy {
-	return pw.Policy{Inline: func(fn *types.Func, d int) bool {
-		return sameRecvNamed(fn, "Trait") && !fn.Exported()
-	}, MaxDepth: 3}
+	return pw.Policy{Inline: inlineUnexported, MaxDepth: 3}
 }
 
 func (c *Ctx) c11Boundary() {
